@@ -331,6 +331,27 @@ func TestC18(t *testing.T) {
 		do(c18Case{Kind: "group-rt", Addr: uint16(a)}, true)
 		do(c18Case{Kind: "indiv-rt", Addr: uint16(a)}, true)
 	}
+	// 1b. the texts are kept: format every address of both kinds first (alternating), parse afterwards - a text handed
+	// out belongs to the caller and does not change when another address is formatted
+	if rec.Env.Shard == 0 {
+		gt, it := make([]string, 65536), make([]string, 65536)
+		for a := 1; a <= 65535; a++ {
+			gt[a] = cemi.GroupAddr(a).String()
+			it[a] = cemi.IndividualAddr(a).String()
+		}
+		bad := 0
+		for a := 1; a <= 65535 && bad == 0; a++ {
+			g, errG := cemi.NewGroupAddrString(gt[a])
+			i, errI := cemi.NewIndividualAddrString(it[a])
+			if errG != nil || uint16(g) != uint16(a) || errI != nil || uint16(i) != uint16(a) {
+				bad++
+				common.Report(t, rec, common.Failf("text-not-owned", "the texts of all addresses were formatted first and parsed afterwards: the text kept for group address %#04x now reads %q (parses to %#04x, %v), the one for individual address %#04x reads %q (parses to %#04x, %v)",
+					a, gt[a], uint16(g), errG, a, it[a], uint16(i), errI), c18Case{Kind: "group-rt", Addr: uint16(a)})
+			}
+		}
+		rec.Eval(2 * 65535)
+		rec.ClassN("round-trip-texts-kept", 2*65535)
+	}
 	rec.Exhaustive("round trip of all 65535 non-zero addresses, both kinds")
 	rec.Sample("round-trip", c18Case{Kind: "group-rt", Addr: 0x0fff})
 	// 2. component tuples widened by 4
